@@ -4,12 +4,12 @@ go 1.25.6
 
 require (
 	github.com/DataDog/datadog-traceroute v0.0.0
+	github.com/cenkalti/backoff/v5 v5.0.3
 	github.com/patrickmn/go-cache v2.1.0+incompatible
 	golang.org/x/net v0.49.0
 )
 
 require (
-	github.com/cenkalti/backoff/v5 v5.0.3 // indirect
 	github.com/golang/mock v1.6.0 // indirect
 	github.com/google/gopacket v1.1.19 // indirect
 	github.com/google/uuid v1.6.0 // indirect
